@@ -11,6 +11,8 @@ Point-set vocabulary (`BBox.memHalfOpen / memInterior / memClosed`, `GeoBox.cove
 -/
 import OdcGeo.Model.C14
 import OdcGeo.Lemmas.C14
+import OdcGeo.Model.C20
+import OdcGeo.Model.C02
 import Mathlib.Tactic.NormNum
 
 namespace OdcGeo.C14
@@ -612,6 +614,444 @@ theorem polygon_query_cache_independent (q : BBox) (dj : GeoBox → Bool) (c : C
     rfl
 
 end cache
+
+/-! ## growth round: degenerate queries, multi-part geometries, `__eq__`, `alignment`, `geojson`, E↔F transfer -/
+
+section growth
+variable {ny nx : Int} {rx ry ox oy : Rat} {fx fy : Bool} {g : GridSpec}
+
+/-- For EVERY query box and tolerance (also zero width / height, also thinner than the tolerance) the tile
+    containing the centre of the box is returned: a bounding-box query is never answered with nothing. -/
+theorem bbox_query_returns_centre_tile (hg : GridSpec.new id ny nx rx ry ox oy fx fy = .ok g) (tol : Rat) (q : BBox) :
+    g.pt2idx id ((q.left + q.right) / 2) ((q.bottom + q.top) / 2) ∈ g.tiles id tol q := by
+  rw [tiles_mem, idx_bounds_general hg]
+  refine ⟨((q.left + q.right) / 2, (q.bottom + q.top) / 2), ?_, ?_, ?_, ?_, pt_in_its_tile hg _ _⟩
+  · rcases le_total (q.left + tol) (q.right - tol) with h | h
+    · rw [min_eq_left h]; simp only; linarith
+    · rw [min_eq_right h]; simp only; linarith
+  · rcases le_total (q.left + tol) (q.right - tol) with h | h
+    · rw [max_eq_right h]; simp only; linarith
+    · rw [max_eq_left h]; simp only; linarith
+  · rcases le_total (q.bottom + tol) (q.top - tol) with h | h
+    · rw [min_eq_left h]; simp only; linarith
+    · rw [min_eq_right h]; simp only; linarith
+  · rcases le_total (q.bottom + tol) (q.top - tol) with h | h
+    · rw [max_eq_right h]; simp only; linarith
+    · rw [max_eq_left h]; simp only; linarith
+
+/-- a zero-area query (a point) returns the tile that contains the point -/
+theorem zero_area_query_returns_its_tile (hg : GridSpec.new id ny nx rx ry ox oy fx fy = .ok g) (tol x y : Rat) :
+    g.pt2idx id x y ∈ g.tiles id tol ⟨x, y, x, y⟩ := by
+  have := bbox_query_returns_centre_tile hg tol ⟨x, y, x, y⟩
+  simpa using this
+
+/-- a zero-WIDTH query (`left = right = x`, e.g. the bounding box of a north-south line): every tile that contains
+    a point `(x, y)` of it with `y` at least `tol` inside the box is returned (and symmetrically for zero height) -/
+theorem zero_width_query_returns_tiles (hg : GridSpec.new id ny nx rx ry ox oy fx fy = .ok g) {tol : Rat}
+    (ht : 0 ≤ tol) (x y b t : Rat) (hy : b + tol ≤ y ∧ y ≤ t - tol) :
+    g.pt2idx id x y ∈ g.tiles id tol ⟨x, b, x, t⟩ ∧ g.pt2idx id y x ∈ g.tiles id tol ⟨b, x, t, x⟩ := by
+  constructor
+  · rw [tiles_mem, idx_bounds_general hg]
+    exact ⟨(x, y), le_trans (min_le_right _ _) (by simp only; linarith), le_trans (by simp only; linarith) (le_max_left _ _),
+      le_trans (min_le_left _ _) hy.1, le_trans hy.2 (le_max_right _ _), pt_in_its_tile hg _ _⟩
+  · rw [tiles_mem, idx_bounds_general hg]
+    exact ⟨(y, x), le_trans (min_le_left _ _) hy.1, le_trans hy.2 (le_max_right _ _),
+      le_trans (min_le_right _ _) (by simp only; linarith), le_trans (by simp only; linarith) (le_max_left _ _),
+      pt_in_its_tile hg _ _⟩
+
+/-! ### multi-part query geometries -/
+
+/-- `tiles_from_geopolygon` of a multi-part geometry: ONE scan over the bounding box of the whole geometry; a tile
+    is returned iff it is in that scan and NOT disjoint from at least one part — whatever the order of the parts —
+    and it is returned exactly once.  An empty geometry is rejected (`ValueError`). -/
+theorem multipart_query (fl : Rnd) (tol : Rat) (g : GridSpec) (parts : List (BBox × (GeoBox → Bool))) :
+    (parts = [] → g.tilesFromMulti fl tol parts = .error .valueError) ∧
+    (∀ q, hullBBox (parts.map (·.1)) = some q →
+      ∃ l, g.tilesFromMulti fl tol parts = .ok l ∧ l.Nodup ∧
+        ∀ k, k ∈ l ↔ (k ∈ g.tiles fl tol q ∧ ∃ p ∈ parts, p.2 (g.tileGeobox fl k) = false)) := by
+  constructor
+  · rintro rfl; rfl
+  · intro q hq
+    unfold GridSpec.tilesFromMulti
+    rw [hq]
+    refine ⟨_, rfl, ?_, fun k => ?_⟩
+    · unfold GridSpec.tilesFromPolygon
+      apply List.Nodup.filter
+      -- the scan itself has no duplicates (any rounding function)
+      unfold GridSpec.tiles
+      rw [List.nodup_flatMap]
+      refine ⟨fun iy _ => List.Nodup.map (fun i j h => by simpa using h) (rangeI_nodup _ _), ?_⟩
+      apply List.Pairwise.imp_of_mem _ (rangeI_nodup _ _)
+      intro a b _ _ hab
+      simp only [Function.onFun, List.disjoint_left, List.mem_map]
+      rintro k ⟨i, _, rfl⟩ ⟨j, _, h⟩
+      exact hab (by simpa using (congrArg Prod.snd h).symm)
+    · unfold GridSpec.tilesFromPolygon
+      simp only [List.mem_filter, Bool.not_eq_true', List.all_eq_false]
+      constructor
+      · rintro ⟨h1, p, hp, h2⟩
+        exact ⟨h1, p, hp, by simpa using h2⟩
+      · rintro ⟨h1, p, hp, h2⟩
+        exact ⟨h1, p, hp, by simp [h2]⟩
+
+/-- the hull of the parts' bounds contains every part's bounds -/
+theorem hull_contains_parts (qs : List BBox) (q : BBox) (hq : hullBBox qs = some q) :
+    ∀ p ∈ qs, q.left ≤ p.left ∧ q.bottom ≤ p.bottom ∧ p.right ≤ q.right ∧ p.top ≤ q.top := by
+  cases qs with
+  | nil => simp [hullBBox] at hq
+  | cons q0 rest =>
+    simp only [hullBBox, Option.some.injEq] at hq
+    subst hq
+    -- generalise the accumulator of the fold
+    have key : ∀ (l : List BBox) (h0 : BBox),
+        (let r := l.foldl (fun h p => (⟨min h.left p.left, min h.bottom p.bottom, max h.right p.right, max h.top p.top⟩ : BBox)) h0
+         (r.left ≤ h0.left ∧ r.bottom ≤ h0.bottom ∧ h0.right ≤ r.right ∧ h0.top ≤ r.top) ∧
+          ∀ p ∈ l, r.left ≤ p.left ∧ r.bottom ≤ p.bottom ∧ p.right ≤ r.right ∧ p.top ≤ r.top) := by
+      intro l
+      induction l with
+      | nil => intro h0; simp
+      | cons a l ih =>
+        intro h0
+        have := ih ⟨min h0.left a.left, min h0.bottom a.bottom, max h0.right a.right, max h0.top a.top⟩
+        simp only [List.foldl_cons] at this ⊢
+        obtain ⟨⟨a1, a2, a3, a4⟩, hall⟩ := this
+        refine ⟨⟨le_trans a1 (min_le_left _ _), le_trans a2 (min_le_left _ _), le_trans (le_max_left _ _) a3,
+          le_trans (le_max_left _ _) a4⟩, ?_⟩
+        intro p hp
+        rcases List.mem_cons.mp hp with rfl | hp
+        · exact ⟨le_trans a1 (min_le_right _ _), le_trans a2 (min_le_right _ _), le_trans (le_max_right _ _) a3,
+            le_trans (le_max_right _ _) a4⟩
+        · exact hall p hp
+    intro p hp
+    obtain ⟨h0, hall⟩ := key rest q0
+    rcases List.mem_cons.mp hp with rfl | hp
+    · exact h0
+    · exact hall p hp
+
+/-- Soundness and completeness of the multi-part query under the per-part contract of `disjoint`
+    (`P p` is the point set of part `p`): a returned tile's closed footprint contains a point of SOME part; and the
+    tile of any point of ANY part lying at least `tol` inside the overall bounding box is returned. -/
+theorem multipart_query_sound_complete (hg : GridSpec.new id ny nx rx ry ox oy fx fy = .ok g) (tol : Rat)
+    (parts : List (BBox × (GeoBox → Bool))) (P : (BBox × (GeoBox → Bool)) → Rat × Rat → Prop)
+    (hdj : ∀ p ∈ parts, ∀ gb, p.2 gb = true ↔ ¬ ∃ pt, P p pt ∧ gb.covers pt)
+    (q : BBox) (hq : hullBBox (parts.map (·.1)) = some q) (l : List (Int × Int))
+    (hl : g.tilesFromMulti id tol parts = .ok l) :
+    (∀ k ∈ l, ∃ p ∈ parts, ∃ pt, P p pt ∧ (g.footprint k).memClosed pt) ∧
+    (q.left + tol ≤ q.right - tol → q.bottom + tol ≤ q.top - tol →
+      ∀ p ∈ parts, ∀ pt, P p pt →
+        q.left + tol ≤ pt.1 ∧ pt.1 ≤ q.right - tol ∧ q.bottom + tol ≤ pt.2 ∧ pt.2 ≤ q.top - tol →
+        g.pt2idx id pt.1 pt.2 ∈ l) := by
+  have hall : ∀ gb, (parts.all (fun p => p.2 gb)) = true ↔ ¬ ∃ pt, (∃ p ∈ parts, P p pt) ∧ gb.covers pt := by
+    intro gb
+    rw [List.all_eq_true]
+    constructor
+    · rintro h ⟨pt, ⟨p, hp, hP⟩, hc⟩
+      exact ((hdj p hp gb).mp (h p hp)) ⟨pt, hP, hc⟩
+    · intro h p hp
+      rw [hdj p hp gb]
+      rintro ⟨pt, hP, hc⟩
+      exact h ⟨pt, ⟨p, hp, hP⟩, hc⟩
+  unfold GridSpec.tilesFromMulti at hl
+  rw [hq] at hl
+  cases hl
+  constructor
+  · intro k hk
+    obtain ⟨pt, ⟨p, hp, hP⟩, hc⟩ := polygon_query_sound hg tol q (fun pt => ∃ p ∈ parts, P p pt) _ hall k hk
+    exact ⟨p, hp, pt, hP, hc⟩
+  · intro hx hy p hp pt hP hin
+    exact polygon_query_complete hg tol q (fun pt => ∃ p ∈ parts, P p pt) _ hall hx hy pt ⟨p, hp, hP⟩ hin
+
+/-! ### `__eq__` -/
+
+/-- `gs1 == gs2` (same CRS) holds exactly when the two grids have the same tile shape and the same footprint for
+    every tile index — equality characterises the TILING. -/
+theorem gridspec_eq_iff_same_tiling {ny' nx' : Int} {rx' ry' ox' oy' : Rat} {fx' fy' : Bool} {h : GridSpec}
+    (hg : GridSpec.new id ny nx rx ry ox oy fx fy = .ok g)
+    (hh : GridSpec.new id ny' nx' rx' ry' ox' oy' fx' fy' = .ok h) :
+    g.beq h true = true ↔ (g.ny = h.ny ∧ g.nx = h.nx ∧ ∀ k, g.footprint k = h.footprint k) := by
+  obtain ⟨_, wg⟩ := GridSpec.new_ok hg
+  obtain ⟨_, wh⟩ := GridSpec.new_ok hh
+  unfold GridSpec.beq
+  simp only [Bool.and_true, Bool.and_eq_true, decide_eq_true_eq]
+  constructor
+  · rintro ⟨⟨⟨h1, h2⟩, hy⟩, hx⟩
+    refine ⟨h1, h2, fun k => ?_⟩
+    rw [GridSpec.footprint_eq g wg, GridSpec.footprint_eq h wh, hx, hy]
+  · rintro ⟨h1, h2, hf⟩
+    have f0 := hf (0, 0)
+    have f1 := hf (1, 1)
+    rw [GridSpec.footprint_eq g wg, GridSpec.footprint_eq h wh] at f0 f1
+    simp only [BBox.mk.injEq, Bin1D.lo_id, Bin1D.hi_id] at f0 f1
+    obtain ⟨a0, b0, c0, d0⟩ := f0
+    obtain ⟨a1, b1, _, _⟩ := f1
+    push_cast at a0 b0 c0 d0 a1 b1
+    have ex : g.xbin = h.xbin := by
+      apply Bin1D.eq_of_bins _ _ wg.x <;> simp only [Bin1D.lo_id, Bin1D.hi_id] <;> push_cast <;> assumption
+    have ey : g.ybin = h.ybin := by
+      apply Bin1D.eq_of_bins _ _ wg.y <;> simp only [Bin1D.lo_id, Bin1D.hi_id] <;> push_cast <;> assumption
+    exact ⟨⟨⟨h1, h2⟩, ey⟩, ex⟩
+
+/-- `__eq__` ignores the SIGN of the resolution: `GridSpec((10,10), (0.5,-0.5)) == GridSpec((10,10), (-0.5,-0.5))`
+    although their tile GeoBoxes differ (mirrored pixel order).  Replayed on the real code by the harness
+    (`a == b` is `True`, `a[0,0] == b[0,0]` is `False`).  Equality is not part of C14's statement; recorded as an
+    observation (equal values that behave differently). -/
+theorem gridspec_eq_ignores_resolution_sign :
+    ∃ g h, GridSpec.new id 10 10 (1 / 2) (-1 / 2) 0 0 false false = .ok g ∧
+      GridSpec.new id 10 10 (-1 / 2) (-1 / 2) 0 0 false false = .ok h ∧
+      g.beq h true = true ∧ g.tileGeobox id (0, 0) ≠ h.tileGeobox id (0, 0) := by
+  have hg := GridSpec.new_eq_ok (ny := 10) (nx := 10) (rx := 1 / 2) (ry := -1 / 2) 0 0 false false
+    (by norm_num [rabs]) (by norm_num [rabs])
+  have hh := GridSpec.new_eq_ok (ny := 10) (nx := 10) (rx := -1 / 2) (ry := -1 / 2) 0 0 false false
+    (by norm_num [rabs]) (by norm_num [rabs])
+  refine ⟨_, _, hg, hh, ?_, ?_⟩
+  · unfold GridSpec.beq
+    simp only [Bool.and_true, Bool.and_eq_true, decide_eq_true_eq, Bin1D.mk.injEq, and_true, true_and]
+    norm_num [rabs]
+  · intro he
+    have := congrArg (fun gb => gb.aff.a) he
+    simp only [GridSpec.tileGeobox] at this
+    norm_num at this
+
+/-! ### `alignment` -/
+
+/-- `GridSpec.alignment` is defined for every constructed grid, lies in `[0, |res|)` per axis, and is the offset of
+    EVERY pixel edge of EVERY tile from the multiples of the pixel size: the left edge of pixel column `c` of tile
+    `k` is `n·|rx| + alignment.x` for an integer `n` (same for rows). -/
+theorem alignment_spec (hg : GridSpec.new id ny nx rx ry ox oy fx fy = .ok g) :
+    ∃ ax ay, g.alignment id = .ok (ax, ay) ∧ 0 ≤ ax ∧ ax < rabs rx ∧ 0 ≤ ay ∧ ay < rabs ry ∧
+      (∀ k c : Int, ∃ n : Int, g.xbin.lo id k + (c : Rat) * rabs rx = (n : Rat) * rabs rx + ax) ∧
+      (∀ k c : Int, ∃ n : Int, g.ybin.lo id k + (c : Rat) * rabs ry = (n : Rat) * rabs ry + ay) := by
+  obtain ⟨e, w⟩ := GridSpec.new_ok hg
+  have hnx := GridSpec.n_pos_of_sz (by have := w.x.sz_pos; rw [w.szx, e] at this; exact this : 0 < (nx : Rat) * rabs rx)
+  have hny := GridSpec.n_pos_of_sz (by have := w.y.sz_pos; rw [w.szy, e] at this; exact this : 0 < (ny : Rat) * rabs ry)
+  have hrx : 0 < rabs rx := by
+    have := w.x.sz_pos; rw [w.szx, e] at this
+    exact GridSpec.rabs_pos_of_sz this
+  have hry : 0 < rabs ry := by
+    have := w.y.sz_pos; rw [w.szy, e] at this
+    exact GridSpec.rabs_pos_of_sz this
+  obtain ⟨ax, hax, ax0, ax1, nxo, hxo⟩ := pyFloatMod_pos (a := ox) hrx
+  obtain ⟨ay, hay, ay0, ay1, nyo, hyo⟩ := pyFloatMod_pos (a := oy) hry
+  refine ⟨ax, ay, ?_, ax0, ax1, ay0, ay1, ?_, ?_⟩
+  · subst e
+    simp only [GridSpec.alignment, hay, hax]
+    rfl
+  · intro k c
+    refine ⟨k * nx * g.xbin.dir + c + nxo, ?_⟩
+    rw [Bin1D.lo_id, w.szx]
+    subst e
+    simp only
+    push_cast
+    rw [hxo]; ring
+  · intro k c
+    refine ⟨k * ny * g.ybin.dir + c + nyo, ?_⟩
+    rw [Bin1D.lo_id, w.szy]
+    subst e
+    simp only
+    push_cast
+    rw [hyo]; ring
+
+/-! ### `geojson` index walk -/
+
+/-- `geojson(bbox=…, geopolygon=…)` emits the tiles of the polygon query when a geopolygon is given (the bbox
+    argument is then ignored), otherwise those of the bbox query, in query order, each index once. -/
+theorem geojson_index_walk (fl : Rnd) (tol : Rat) (g : GridSpec) (q q' : BBox) (dj : GeoBox → Bool) :
+    g.geojsonIdx fl tol (some q') (some (q, dj)) = some (g.tilesFromPolygon fl tol q dj) ∧
+    g.geojsonIdx fl tol none (some (q, dj)) = some (g.tilesFromPolygon fl tol q dj) ∧
+    g.geojsonIdx fl tol (some q) none = some (g.tiles fl tol q) :=
+  ⟨rfl, rfl, rfl⟩
+
+/-! ### `from_sample_tile`: the two axes are independent (non-square pixels) -/
+
+/-- the rebuilt grid takes its x tile size / pixel size from the sample's WIDTH and its y tile size / pixel size from
+    the sample's HEIGHT, independently (pixels need not be square) -/
+theorem from_sample_tile_axes_independent (q : BBox) {ny nx : Int} (ix iy : Int) (fx fy : Bool)
+    (hx : q.left < q.right) (hy : q.bottom < q.top) (hnx : 0 < nx) (hny : 0 < ny) :
+    ∃ g', GridSpec.fromSampleTile id q ny nx ix iy fx fy = .ok g' ∧
+      g'.xbin.sz = q.right - q.left ∧ g'.ybin.sz = q.top - q.bottom ∧
+      g'.rx * (nx : Rat) = q.right - q.left ∧ -g'.ry * (ny : Rat) = q.top - q.bottom := by
+  obtain ⟨g', h, _, _, _, h3, h4, h5, h6⟩ := GridSpec.fromSampleTile_spec ix iy fx fy hx hy hnx hny
+  have hnx' : (nx : Rat) ≠ 0 := by exact_mod_cast hnx.ne'
+  have hny' : (ny : Rat) ≠ 0 := by exact_mod_cast hny.ne'
+  refine ⟨g', h, by rw [h5], by rw [h6], ?_, ?_⟩
+  · rw [h3]; field_simp
+  · rw [h4]; field_simp
+
+example : ∃ g', GridSpec.fromSampleTile id ⟨0, 0, 12, 5⟩ 10 3 0 0 false false = .ok g' ∧ g'.rx = 4 ∧ g'.ry = -1 / 2 := by
+  obtain ⟨g', h, _, _, _, _, _, h7, h8⟩ := from_sample_tile_sample ⟨0, 0, 12, 5⟩ (ny := 10) (nx := 3) 0 0 false false
+    (by norm_num) (by norm_num) (by norm_num) (by norm_num)
+  exact ⟨g', h, by rw [h7]; norm_num, by rw [h8]; norm_num⟩
+
+end growth
+
+/-! ## E-mode ↔ F-mode: the exact theorems transfer to any rounding function that leaves the intermediates alone
+
+`fl` is arbitrary (in particular binary64 `fl64`).  Each lemma lists exactly the intermediate values of the
+corresponding Python expression; if `fl` fixes them (they are representable), the rounded model coincides with the
+exact one, hence every theorem above applies verbatim to what the real code computes in doubles.  What is NOT proved:
+a closed-form representability criterion for `fl64` (`fl64 (m·2^e) = m·2^e` for `|m| < 2^53`); representability of
+concrete values is discharged by kernel evaluation (examples below) and checked for whole input streams by the
+harness (E and F lines of the same input must both equal the real code). -/
+
+section transfer
+variable (fl : Rnd)
+
+/-- `Bin1D.__getitem__`: `idx*sz`, `·*direction`, `·+origin`, `·+sz` -/
+theorem bin_interval_transfer (b : Bin1D) (k : Int)
+    (h1 : fl ((k : Rat) * b.sz) = (k : Rat) * b.sz)
+    (h2 : fl ((k : Rat) * b.sz * (b.dir : Rat)) = (k : Rat) * b.sz * (b.dir : Rat))
+    (h3 : fl ((k : Rat) * b.sz * (b.dir : Rat) + b.origin) = (k : Rat) * b.sz * (b.dir : Rat) + b.origin)
+    (h4 : fl ((k : Rat) * b.sz * (b.dir : Rat) + b.origin + b.sz) = (k : Rat) * b.sz * (b.dir : Rat) + b.origin + b.sz) :
+    b.lo fl k = b.lo id k ∧ b.hi fl k = b.hi id k := by
+  have hlo : b.lo fl k = b.lo id k := by
+    unfold Bin1D.lo
+    simp only [id]
+    rw [h1, h2, h3]
+  refine ⟨hlo, ?_⟩
+  unfold Bin1D.hi
+  rw [hlo]
+  simp only [id, Bin1D.lo_id]
+  exact h4
+
+/-- `Bin1D.bin`: only the FLOOR of the rounded quotient matters -/
+theorem bin_transfer (b : Bin1D) (x : Rat)
+    (h : (fl (fl (x - b.origin) / b.sz)).floor = ((x - b.origin) / b.sz).floor) :
+    b.bin fl x = b.bin id x := by
+  unfold Bin1D.bin
+  simp only [id]
+  rw [h]
+
+/-- the 1-D membership theorem for the ROUNDED model: if the quotient's floor and the edges of the bin found are
+    not disturbed by `fl`, the point lies in the bin that the rounded lookup returns -/
+theorem bin_mem_transfer {sz o : Rat} {d : Int} {b : Bin1D} (hb : Bin1D.new sz o d = .ok b) (x : Rat)
+    (hq : (fl (fl (x - b.origin) / b.sz)).floor = ((x - b.origin) / b.sz).floor)
+    (hlo : b.lo fl (b.bin fl x) = b.lo id (b.bin fl x)) (hhi : b.hi fl (b.bin fl x) = b.hi id (b.bin fl x)) :
+    b.lo fl (b.bin fl x) ≤ x ∧ x < b.hi fl (b.bin fl x) := by
+  rw [hlo, hhi, bin_transfer fl b x hq]
+  exact (bin_mem hb x _).mp rfl
+
+/-- `GridSpec.__init__`: if the two products `shape × |resolution|` are representable the rounded constructor
+    builds the same grid as the exact one -/
+theorem gridspec_new_transfer (ny nx : Int) (rx ry ox oy : Rat) (fx fy : Bool)
+    (hx : fl ((nx : Rat) * rabs rx) = (nx : Rat) * rabs rx) (hy : fl ((ny : Rat) * rabs ry) = (ny : Rat) * rabs ry) :
+    GridSpec.new fl ny nx rx ry ox oy fx fy = GridSpec.new id ny nx rx ry ox oy fx fy := by
+  unfold GridSpec.new
+  simp only [id]
+  rw [hx, hy]
+
+/-- point lookup and tile GeoBox of the rounded model equal the exact ones under per-axis exactness -/
+theorem pt2idx_tile_transfer (g : GridSpec) (x y : Rat) (k : Int × Int)
+    (hqx : (fl (fl (x - g.xbin.origin) / g.xbin.sz)).floor = ((x - g.xbin.origin) / g.xbin.sz).floor)
+    (hqy : (fl (fl (y - g.ybin.origin) / g.ybin.sz)).floor = ((y - g.ybin.origin) / g.ybin.sz).floor)
+    (hxl : g.xbin.lo fl k.1 = g.xbin.lo id k.1) (hxh : g.xbin.hi fl k.1 = g.xbin.hi id k.1)
+    (hyl : g.ybin.lo fl k.2 = g.ybin.lo id k.2) (hyh : g.ybin.hi fl k.2 = g.ybin.hi id k.2) :
+    g.pt2idx fl x y = g.pt2idx id x y ∧ g.tileGeobox fl k = g.tileGeobox id k := by
+  constructor
+  · unfold GridSpec.pt2idx
+    rw [bin_transfer fl g.xbin x hqx, bin_transfer fl g.ybin y hqy]
+  · unfold GridSpec.tileGeobox GridSpec.tileTxy
+    simp only [hxl, hxh, hyl, hyh]
+
+/-- `idx_bounds` of the rounded model equals the exact one if the four probe coordinates `x ± tol` are representable
+    and their lookups are undisturbed -/
+theorem idx_bounds_transfer (tol : Rat) (g : GridSpec) (q : BBox)
+    (h1 : fl (q.left + tol) = q.left + tol) (h2 : fl (q.bottom + tol) = q.bottom + tol)
+    (h3 : fl (q.right - tol) = q.right - tol) (h4 : fl (q.top - tol) = q.top - tol)
+    (hp1 : g.pt2idx fl (q.left + tol) (q.bottom + tol) = g.pt2idx id (q.left + tol) (q.bottom + tol))
+    (hp2 : g.pt2idx fl (q.right - tol) (q.top - tol) = g.pt2idx id (q.right - tol) (q.top - tol)) :
+    g.idxBounds fl tol q = g.idxBounds id tol q ∧ g.tiles fl tol q = g.tiles id tol q := by
+  have : g.idxBounds fl tol q = g.idxBounds id tol q := by
+    unfold GridSpec.idxBounds
+    simp only [id]
+    rw [h1, h2, h3, h4, hp1, hp2]
+  refine ⟨this, ?_⟩
+  unfold GridSpec.tiles
+  rw [this]
+
+/-- binary64 leaves typical exact-stream values alone and rounds others (kernel evaluation of `fl64`) -/
+example : fl64 (5 / 2) = 5 / 2 ∧ fl64 (-4416000 + 37 * 96000) = -4416000 + 37 * 96000 ∧ fl64 (1 / 3) ≠ 1 / 3 := by
+  decide +kernel
+
+/-- the hypotheses of `bin_interval_transfer` hold for binary64 on a DEA-like binning (96 km tiles from -4416000) -/
+example : let b : Bin1D := ⟨96000, -4416000, 1⟩
+    b.lo fl64 37 = b.lo id 37 ∧ b.hi fl64 37 = b.hi id 37 := by
+  decide +kernel
+
+end transfer
+
+/-! ## composition with neighbouring models (imported read-only) -/
+
+section links
+
+/-- this model's binning as the `Bin1D` of the C20 model (numeric helpers) -/
+def toC20 (b : Bin1D) : C20.Bin1D := ⟨b.sz, b.origin, b.dir⟩
+
+/-- C20's `Bin1D` model and this one are the same functions (constructor, interval, lookup, from_sample_bin) -/
+theorem c20_bin1d_agrees (b : Bin1D) (k : Int) (x : Rat) (sz o : Rat) (d : Int) (idx : Int) (x0 x1 : Rat) :
+    C20.Bin1D.interval (toC20 b) k = (b.lo id k, b.hi id k) ∧ C20.Bin1D.bin (toC20 b) x = b.bin id x ∧
+    (C20.Bin1D.mk? sz o d).map (fun c => (⟨c.sz, c.origin, c.direction⟩ : Bin1D)) = Bin1D.new sz o d ∧
+    (C20.Bin1D.fromSampleBin idx x0 x1 d).map (fun c => (⟨c.sz, c.origin, c.direction⟩ : Bin1D)) =
+      Bin1D.fromSampleBin id idx x0 x1 d := by
+  refine ⟨rfl, rfl, ?_, ?_⟩
+  · unfold C20.Bin1D.mk? Bin1D.new
+    split <;> [rfl; (split <;> rfl)]
+  · unfold C20.Bin1D.fromSampleBin Bin1D.fromSampleBin C20.Bin1D.mk? Bin1D.new
+    simp only [id]
+    split <;> [rfl; (split <;> [rfl; (split <;> rfl)])]
+
+/-- hence C14's membership theorem holds for the C20 model: `bin x = k ↔ interval(k)[0] ≤ x < interval(k)[1]` -/
+theorem c20_bin_mem {sz o : Rat} {d : Int} {c : C20.Bin1D} (hc : C20.Bin1D.mk? sz o d = .ok c) (x : Rat) (k : Int) :
+    C20.Bin1D.bin c x = k ↔ (C20.Bin1D.interval c k).1 ≤ x ∧ x < (C20.Bin1D.interval c k).2 := by
+  have h := (c20_bin1d_agrees ⟨c.sz, c.origin, c.direction⟩ k x sz o d 0 0 0).2.2.1
+  rw [hc] at h
+  have hb : Bin1D.new sz o d = .ok ⟨c.sz, c.origin, c.direction⟩ := h.symm
+  exact bin_mem hb x k
+
+/-- a tile GeoBox of this model as a `GeoBox` of the C02 model (GeoBox views), with CRS tag `crs` -/
+def toC02 (gb : GeoBox) (crs : Nat) : C02.GeoBox := ⟨gb.ny, gb.nx, gb.aff, crs⟩
+
+/-- End-to-end link with C02: every tile of a grid, looked at through C02's GeoBox model, is a scale+translate
+    GeoBox whose `resolution` is exactly the grid's signed resolution, whose `boundingbox` is the bin rectangle
+    and whose `extent` ring is the tile's footprint ring. -/
+theorem c02_tile_view {ny nx : Int} {rx ry ox oy : Rat} {fx fy : Bool} {g : GridSpec}
+    (hg : GridSpec.new id ny nx rx ry ox oy fx fy = .ok g) (k : Int × Int) (crs : Nat) (n m : Rat) :
+    C02.resolution (toC02 (g.tileGeobox id k) crs) n m = .ok (rx, ry) ∧
+    (let b := C02.boundingbox (toC02 (g.tileGeobox id k) crs)
+     (b.left, b.bottom, b.right, b.top) =
+       (g.xbin.lo id k.1, g.ybin.lo id k.2, g.xbin.hi id k.1, g.ybin.hi id k.2)) ∧
+    C02.extent (toC02 (g.tileGeobox id k) crs) =
+      (g.tileGeobox id k).extentPts id ++ [(g.tileGeobox id k).aff.apply (0, 0)] := by
+  obtain ⟨e, w⟩ := GridSpec.new_ok hg
+  have hf := GridSpec.footprint_eq g w k
+  refine ⟨?_, ?_, ?_⟩
+  · have ht : (0 : Rat) < C02.tolST := by decide +kernel
+    have hst : C02.isAffineST (toC02 (g.tileGeobox id k) crs).A = true := by
+      unfold C02.isAffineST toC02 GridSpec.tileGeobox
+      simp [C02.rabs, ht]
+    unfold C02.resolution
+    rw [if_pos hst]
+    subst e
+    rfl
+  · unfold GridSpec.footprint GeoBox.bbox applyF at hf
+    simp only [id] at hf
+    unfold C02.boundingbox C02.min4 C02.max4 toC02 Aff.apply
+    simp only
+    have e1 := congrArg BBox.left hf
+    have e2 := congrArg BBox.bottom hf
+    have e3 := congrArg BBox.right hf
+    have e4 := congrArg BBox.top hf
+    simp only at e1 e2 e3 e4
+    simp only [mul_comm (g.tileGeobox id k).aff.a, mul_comm (g.tileGeobox id k).aff.b,
+      mul_comm (g.tileGeobox id k).aff.d, mul_comm (g.tileGeobox id k).aff.e]
+    rw [← e1, ← e2, ← e3, ← e4]
+    simp only [Prod.mk.injEq]
+    refine ⟨?_, ?_, ?_, ?_⟩ <;> simp only [min_assoc, max_assoc]
+  · unfold C02.extent C02.corners toC02 GeoBox.extentPts applyF Aff.apply
+    simp only [id, List.map_cons, List.map_nil, List.cons_append, List.nil_append, List.cons.injEq, Prod.mk.injEq,
+      and_true]
+    refine ⟨⟨?_, ?_⟩, ⟨?_, ?_⟩, ⟨?_, ?_⟩, ?_, ?_⟩ <;> ring
+
+end links
 
 /-! ## non-vacuity of the hypotheses used above -/
 
